@@ -5,13 +5,15 @@ import random
 
 import core
 import tracehost as th
+from props import c15_tl as tlx
+from props import c15_cb as cbx
 
 ID = 'C15'
-EXTRACT = ['locations']
+EXTRACT = ['locations', 'threadlocal', 'deferred']
 LEAN_TARGETS = ['DeepModel.Props.C15']
 AUDIT = 'DeepModel/Audit/C15.lean'
 DRIVER = 'DeepModel/Driver/C15.lean'
-BUDGET = {'quick': 300, 'thorough': 4000}
+BUDGET = {'quick': 420, 'thorough': 5600}
 TIME = {'quick': 75, 'thorough': 840}
 RULE = ('a case = a generated host program (nested calls across modules, if/else, loops, try/except/finally, raising '
         'functions, generators consumed fully / partially and closed, a method) x entry points on 1-3 real threads '
@@ -21,19 +23,35 @@ RULE = ('a case = a generated host program (nested calls across modules, if/else
         'LocationAction with a *_capture stage), several on one function / line (several callbacks per context), '
         'plain snapshot/log tracepoints in between; fire_count=-1 fire_period=0; 40% of the span / capture '
         'tracepoints have a scripted condition (arbitrary open/not-open per hit). Main stream: the reference stream '
-        'satisfies NoClash and NoStack (checked by the generator). Separate labelled streams kf-rec (self-recursive '
+        'satisfies NoClash and NoStack (checked by the generator). Stream rec-ok: self-recursive functions with the deferred-work tracepoints thinned out until no invocation '
+        'runs while an enclosing same-named one has work pending (NoClash violated, NoClashW holds: c15_weak_partial), '
+        'judged like main. Separate labelled streams kf-rec (self-recursive '
         'functions with spans) and kf-stack (method + line span pending at a function end) are instances of the two '
         'known findings; stream cfg-emptied: the host program calls a hook that empties the installed tracepoint list '
         '(handler.new_config([]) / handler.shutdown()) in the middle of a function with deferred work open; stream fault: '
         'spans + deferred method captures (any order) registered by one event, the recording push service raises at chosen '
-        'completions (after recording the attempt): every item still completes exactly once. Non-trivial = at least two contexts opened on some thread and one of them nested in or '
+        'completions (after recording the attempt): every item still completes exactly once. Stream tl (3 of every 14 '
+        'cases): the per-thread store itself — 1-2 real deep.thread_local.ThreadLocal instances (providers: the '
+        'handler\'s fresh-empty-list, the class default None, stateful ones whose every call differs, ones that '
+        'sometimes return None) x 2-6 real threads (started before their first and joined after their last operation: '
+        'idents are reused) x a forced global schedule of get / set / clear / is_set / value / value= / '
+        'get().append(x), sequential, interleaved or in waves, threads mostly ending with a value left behind; '
+        'non-trivial there = a thread starts on an instance on which another thread has left a value. Stream cb (1 of '
+        'every 14): direct calls of the real TriggerContext.__exit__ (results handing back a callback / None / raising, '
+        'real SpanResult and LogActionResult among them), SpanResult.process + SpanActionCallback.process (0-6 spans '
+        'whose close() fails with an Exception anywhere or a BaseException at the last position), '
+        'DeferredSnapshotActionCallback.process per event kind over recording stand-ins, _is_deferred per stage value; '
+        'non-trivial there = a failing item is followed by another item. Non-trivial = at least two contexts opened on some thread and one of them nested in or '
         'overlapping another. Distinct = distinct canonical JSON.')
 TRUSTED = ['CPython 3.12 trace-event discipline (the model and the oracle consume the recorded reference stream; the '
            'invocation-tree flattening of the model is compared with the recorded stream on every case)',
            'frame identity = a per-thread invocation number each host function receives as an argument (read from '
            'frame.f_locals under the plugin call; no frames are kept alive)',
            'effects are attributed to events by (thread, file, line, function, bytecode offset, frame) and by order']
-ASSUMPTIONS = ['host programs are deterministic (same events under the recorder and under the agent)',
+ASSUMPTIONS = ['threading.local() keeps one attribute namespace per (local object, thread object) and a new thread '
+               'object starts with an empty one also when it receives the ident of a finished thread (CPython; the tl '
+               'stream observes it on real threads with reused idents)',
+               'host programs are deterministic (same events under the recorder and under the agent)',
                'callbacks do not raise (a failing span.close / push is C01/C20\'s subject)',
                'the gate (fire_count/fire_period/condition) is an oracle: scripted conditions realise arbitrary '
                'decisions per hit; shared per-action state between threads is not used (unlimited actions)',
@@ -169,6 +187,29 @@ def opens_of(case, events, t):
     return {g['i'] for g in groups if any(k in OPENS for k, _ in g['effects'])}
 
 
+def clash_w(events, opens):
+    """NoClashW violated (Model/CallbacksW): some invocation starts while an ENCLOSING invocation with the same (file
+    name, function name) has a context pending (m: opened at its call event, l: opened at its latest line event —
+    tracked as in th.stacked)."""
+    st = []     # per invocation [key, m, l]
+    for i, e in enumerate(events):
+        k = e['kind']
+        if k == 'call':
+            key = (os.path.basename(e['path']), e['func'])
+            if any(f[0] == key and (f[1] or f[2]) for f in st):
+                return True
+            st.append([key, i in opens, False])
+        elif not st:
+            continue
+        elif k == 'line':
+            st[-1][2] = i in opens
+        elif k == 'exception':
+            st[-1][1:] = [st[-1][1] and st[-1][2], False]
+        elif k == 'return':
+            st.pop()
+    return False
+
+
 def reference_streams(case):
     """the reference streams of a case (recorder only) — used by the generator to classify the case."""
     host = th.Host(case['files'], case.get('nosource', ()))
@@ -186,7 +227,7 @@ def hypotheses(case, streams):
     for t, events in streams.items():
         op = opens_of(case, events, t)
         out[t] = (th.clash(events), th.stacked(events, op) or th.stacked_strict(events, op),
-                  th.caught_completes(events, method_cap_opens(case, events, t)))
+                  th.caught_completes(events, method_cap_opens(case, events, t)), clash_w(events, op))
     return out
 
 
@@ -237,7 +278,8 @@ def gen_case(rng, tier, stream='main'):
         # program calls in the middle of a function that has deferred work open
         mode, nthreads, hook, stream = 'sys', 1, rng.choice(['empty', 'shutdown']), 'main'
     for _attempt in range(20):
-        prog = th.gen_program(rng, nmods=rng.randint(1, 3), nfuncs=rng.randint(3, 5), recursion=(stream == 'kf-rec'),
+        prog = th.gen_program(rng, nmods=rng.randint(1, 3), nfuncs=rng.randint(3, 5),
+                              recursion=(stream in ('kf-rec', 'rec-ok')),
                               sync=(mode == 'threads'), big=(tier == 'thorough' and rng.random() < 0.3), hook=hook)
         entries = [[rng.choice(prog['meta']['mods']), 'f0', rng.randint(0, 3)] for _ in range(nthreads)]
         if hook:
@@ -324,6 +366,20 @@ def gen_case(rng, tier, stream='main'):
                 return case
         elif stream == 'kf-rec' and any_clash:
             return case
+        elif stream == 'rec-ok':
+            # recursion (NoClash violated) in which no invocation runs while an enclosing same-named one has deferred
+            # work pending (NoClashW holds): drop deferred-work tracepoints until that is so; judged like `main`
+            def opening(tp):
+                return bool(tp.get('capture') or 'span' in tp.get('args', {}))
+            while any(h[3] or h[1] or h[2] for h in hyp.values()):
+                cand = [i for i, tp in enumerate(case['tps']) if opening(tp)]
+                if not cand:
+                    break
+                del case['tps'][rng.choice(cand)]
+                hyp = hypotheses(case, streams)
+            if any(h[0] for h in hyp.values()) and not any(h[3] or h[1] or h[2] for h in hyp.values()) \
+                    and any(opening(tp) for tp in case['tps']):
+                return case
         elif stream == 'kf-caught':
             if any_caught and not any_clash:
                 return case
@@ -366,14 +422,24 @@ def gen_case(rng, tier, stream='main'):
                     hyp = hypotheses(case, streams)
                     if any(h[1] for h in hyp.values()) and not any(h[0] for h in hyp.values()):
                         return case
+    if stream == 'rec-ok':
+        # rec(2) with a method span whose scripted condition refuses the two outer calls: only the innermost opens
+        return dict(rec_case(), scripts={'T0': {'tp0': [False, False, True]}}, stream='rec-ok')
     return rec_case() if stream == 'kf-rec' else stack_case() if stream == 'kf-stack' else \
         caught_case() if stream == 'kf-caught' else dict(stack_case(), tps=[
         span_tp(0, 'm0.py', method='f')], stream='main')
 
 
 def gen(rng, tier):
-    k = 0
+    k = j = 0
     while True:
+        j += 1
+        if j % 14 in (4, 8, 12):
+            yield tlx.gen_case(rng, tier)
+            continue
+        if j % 14 == 0:
+            yield cbx.gen_case(rng, tier)
+            continue
         k += 1
         if k % 10 == 0:
             yield gen_case(rng, tier, 'kf-rec')
@@ -385,6 +451,8 @@ def gen(rng, tier):
             yield gen_case(rng, tier, 'fault')
         elif k % 10 == 5:
             yield gen_case(rng, tier, 'kf-stack')
+        elif k % 10 == 9:
+            yield gen_case(rng, tier, 'rec-ok')
         else:
             yield gen_case(rng, tier, 'main')
 
@@ -418,7 +486,7 @@ def corpus():
     tps = [span_tp(0, 'm0.py', method='f'), cap_tp(1, 'm0.py', method='f'), span_tp(2, 'm0.py', method='h'),
            cap_tp(3, 'm0.py', method='h'), span_tp(4, 'm0.py', method='gen'), span_tp(5, 'm0.py', line=20),
            span_tp(6, 'm0.py', line=18), cap_tp(7, 'm0.py', line=23)]
-    return [
+    return tlx.corpus() + cbx.corpus() + [
         {'kind': 'prog', 'mode': 'sys', 'files': {'m0.py': src}, 'entries': [['m0', 'f', 2]], 'tps': tps,
          'scripts': {}, 'sched': [], 'model_seed': 1, 'stream': 'main'},
         {'kind': 'prog', 'mode': 'threads', 'files': {'m0.py': src}, 'entries': [['m0', 'f', 2], ['m0', 'f', 0]],
@@ -458,7 +526,17 @@ def corpus():
 
 
 # --------------------------------------------------------------------------------------- implementation
+SUB = {'tl': tlx, 'cb': cbx}
+
+
+def sub(case):
+    """the module of a direct-call stream (tl: ThreadLocal on real threads; cb: registration / completion below a context)"""
+    return SUB.get(case.get('kind'))
+
+
 def run_impl(case):
+    if sub(case):
+        return sub(case).run_impl(case)
     return th.run_case(case, hooks=True)
 
 
@@ -575,6 +653,8 @@ def oracle_thread(case, obs, t):
 
 
 def oracle(case, obs):
+    if sub(case):
+        return sub(case).oracle(case, obs)
     if 'raised' in obs:
         return ['the agent raised: ' + obs['raised']]
     v = []
@@ -605,7 +685,7 @@ def known_finding(case, obs):
     context is not an instance and is judged normally), resp. NoStack (some invocation
     reaches an own exception event / the end of its body with both its call-opened and a line-opened context
     pending).  The case is an instance only if every violated thread is one."""
-    if 'raised' in obs or 'ref' not in obs:
+    if sub(case) or 'raised' in obs or 'ref' not in obs:
         return None
     flags = {}
     for t in threads_of(case):
@@ -624,6 +704,8 @@ def known_finding(case, obs):
 
 
 def model_request(case, obs):
+    if sub(case):
+        return sub(case).model_request(case, obs)
     if 'raised' in obs:
         return None
     run = th.run_request(case, obs)
@@ -661,6 +743,8 @@ def model_groups(case, effects):
 
 
 def compare(case, obs, resp):
+    if sub(case):
+        return sub(case).compare(case, obs, resp)
     if 'error' in resp:
         return ['model error: ' + resp['error']]
     rs = resp['resps']
@@ -670,6 +754,9 @@ def compare(case, obs, resp):
     d = []
     if not run.get('global_agrees'):
         d.append('model: the interleaved machine disagrees with the per-thread runs')
+    if not run.get('tl_agrees'):
+        d.append('model: the handler over the translated ThreadLocal store (HandlerTL.runGTL) disagrees with runG '
+                 '(c15_handler_over_thread_local)')
     flags = thread_flags(case, obs)
     for k, t in enumerate(threads_of(case)):
         events = obs['ref'].get(t, [])
@@ -716,16 +803,27 @@ def compare(case, obs, resp):
         if (not fr['no_clash'], not fr['no_stack']) != flags[t]:
             d.append('thread %s: hypotheses: Lean (clash %s, stacked %s) vs harness predicates %s' % (
                 t, not fr['no_clash'], not fr['no_stack'], flags[t]))
-        if fr['no_clash'] and fr['no_stack'] and not fr['slot_unset']:
-            d.append('thread %s: model leaves contexts pending although NoClash and NoStack hold (c15_partial)' % t)
+        cw = clash_w(events, opens_of(case, events, t))
+        if (not fr.get('no_clash_w')) != cw:
+            d.append('thread %s: hypothesis NoClashW: Lean %s vs harness predicate clash_w=%s' % (
+                t, fr.get('no_clash_w'), cw))
+        if fr['no_clash'] and not fr.get('no_clash_w'):
+            d.append('thread %s: NoClash holds but NoClashW does not (c15_noclash_implies_weak)' % t)
+        if fr.get('no_clash_w') and fr['no_stack'] and not fr['slot_unset']:
+            d.append('thread %s: model leaves contexts pending although NoClashW and NoStack hold (c15_weak_partial)' % t)
     return d
 
 
 def label(case, obs):
+    if sub(case):
+        return sub(case).label(case, obs)
     if 'raised' in obs:
         return 'raised'
     flags = thread_flags(case, obs)
     kf = 'clash' if any(c for c, _ in flags.values()) else 'stacked' if any(s for _, s in flags.values()) else 'ok'
+    if kf == 'clash' and not any(clash_w(obs['ref'].get(t, []), opens_of(case, obs['ref'].get(t, []), t))
+                                 for t in threads_of(case)):
+        kf = 'clash-weak-ok'      # recursion, but no enclosing same-named invocation has work pending (NoClashW holds)
     n = sum(len([o for o in e if o['kind'] in OPENS]) for e in obs['effects'].values())
     reuse = ''
     if case.get('sequential'):
@@ -737,6 +835,8 @@ def label(case, obs):
 
 
 def nontrivial(case, obs):
+    if sub(case):
+        return sub(case).nontrivial(case, obs)
     if 'raised' in obs:
         return False
     for t, effs in obs['effects'].items():
@@ -753,6 +853,9 @@ def nontrivial(case, obs):
 
 
 def shrink(case):
+    if sub(case):
+        yield from sub(case).shrink(case)
+        return
     tps = case['tps']
     for i in range(len(tps)):
         c = dict(case)
